@@ -381,5 +381,12 @@ FpxKnownKey(e) ==
       [] e.f = "frb" /\ e.lvl = 54 /\ Len(e.a) = 54 /\ Len(e.c) = 54 /\ e.err = 0 /\ e.code = 0 /\ e.unch
                 /\ CanonAll(e, e.c) /\ e.k % 54 # 0
             -> "C10-fp54-frb"
+         \* the Frobenius constants of the towers over fp2 are xi^(j (p-1) div 6) and xi^(p div 4): exact
+         \* only for p = 1 (mod 6); on the selectable primes = 2 (mod 3) (brainpoolP256r1, SM2) whose
+         \* residue classes still admit fp4 / fp6 the maps fp4_frb, fp6_frb, ... are not the p-th power
+      [] e.f = "frb" /\ e.lvl \in {4, 6, 8, 12, 16, 24, 48} /\ Len(e.a) = e.lvl /\ Len(e.c) = e.lvl
+                /\ e.err = 0 /\ e.code = 0 /\ e.unch /\ CanonAll(e, e.c)
+                /\ BMod(P(e), <<3>>) = <<2>> /\ e.k % e.lvl # 0
+            -> "C10-frb-p-2-mod-3"
       [] OTHER -> ""
 =============================================================================
